@@ -786,12 +786,26 @@ example : ∃ toks dt' parsed,
       (parsed_lexical_normal_form exParsedToks _ false exParsed_feed exParsedRoot rfl)
       (by simp only [exParsedRoot, LNode.LexOK, LexOKL, NoAdjL, RawKidsOK, isDataTok]; decide) trivial)
 
-/-- an API-built tree with the text of `exParsedRoot` split in two blocks and empty blocks around: equal to it up to
-    text segmentation, so `roundtrip_single_any_segmentation` applies (with `exParsedRoot`'s `WF` and `ToksOK`) -/
-example : (Node.elem "p".toList
-      (intake [("class".toList, some "a  b".toList), ("CLASS".toList, some "c".toList)] AttrState.empty) false
-      [.text [], .text "x".toList, .text []]).norm
-    = exParsedRoot.toNode.norm := by
-  simp [Node.norm, normL, exParsedRoot, LNode.toNode, toNodeL, textOfD, Spec.textOf]
+/-- an API-built tree with the text of `exParsedRoot` split up and empty blocks around it -/
+def exSplit : Node :=
+  .elem "p".toList (intake [("class".toList, some "a  b".toList), ("CLASS".toList, some "c".toList)] AttrState.empty) false
+    [.text [], .text "x".toList, .text []]
+
+/-- it equals `exParsedRoot` up to text segmentation … -/
+theorem exSplit_norm : exSplit.norm = exParsedRoot.toNode.norm := by
+  simp [exSplit, Node.norm, normL, exParsedRoot, LNode.toNode, toNodeL, textOfD, Spec.textOf]
+
+/-- … so `roundtrip_single_any_segmentation` applies: its hypotheses are satisfiable by a tree that is NOT in
+    lexical normal form -/
+example : ∃ toks dt' parsed,
+    lexStrict (docHTML none exSplit) = some toks ∧
+    feedTokens toks = .doc ⟨dt', some parsed⟩ false ∧
+    parsed.norm = exSplit.reintake.norm ∧
+    (exSplit.Stable → parsed.norm.obs = exSplit.norm.obs) :=
+  roundtrip_single_any_segmentation none exSplit _ _ _ _ exSplit_norm
+    (parsed_lexical_normal_form exParsedToks _ false exParsed_feed exParsedRoot rfl) (by decide)
+    (toksOK_of_lexOK_single none _ _ _ _
+      (parsed_lexical_normal_form exParsedToks _ false exParsed_feed exParsedRoot rfl)
+      (by simp only [exParsedRoot, LNode.LexOK, LexOKL, NoAdjL, RawKidsOK, isDataTok]; decide) trivial)
 
 end AHP.C01
